@@ -151,13 +151,27 @@ def handle (w : World) (line : String) : World × String :=
   | ["req", c, h] => doReq w c h "get"
   | ["req", c, h, method] => doReq w c h method
   | ["req", c, h, method, fail] =>
-    -- the opener raises after it was handed the request: nothing of what the request did is undone
-    let (w', r) := doReq w c h method
-    let name := if fail = "url" then "URLError" else if fail = "http" then "HTTPError"
-      else if fail = "timeout" then "TimeoutError" else if fail = "disc" then "RemoteDisconnected"
-      else if fail = "reset" then "ConnectionResetError" else if fail = "pipe" then "BrokenPipeError"
-      else "RuntimeError"
-    (w', if r.startsWith "sent " then r ++ " raised " ++ name else r)
+    -- the opener raises after it was handed the request, or the answer cannot be processed: nothing of what
+    -- the request did is undone (`World.requestOutcome`)
+    match c.toNat?, parseSrc h with
+    | some c', some src =>
+      let o : Outcome := if fail = "raw" then .answered
+        else if fail = "badjson" || fail = "badutf" || fail = "respad" then .processingRaised else .openerRaised
+      match w.requestOutcome g c' src (method == "post" || method == "put" || method == "patch") o with
+      | .ok (w', hs', raised) =>
+        let name := if fail = "url" then "URLError" else if fail = "http" then "HTTPError"
+          else if fail = "timeout" then "TimeoutError" else if fail = "disc" then "RemoteDisconnected"
+          else if fail = "reset" then "ConnectionResetError" else if fail = "pipe" then "BrokenPipeError"
+          else if fail = "badjson" then "JSONDecodeError" else if fail = "badutf" then "UnicodeDecodeError"
+          else if fail = "respad" then "ValueError" else "RuntimeError"
+        (w', "sent " ++ showSent hs' ++
+          (match src with
+           | .ref k => match w'.dicts[k]? with
+             | some d => " dict=" ++ showHdrs d
+             | none => " dict=?"
+           | .lit _ => "") ++ (if raised then " raised " ++ name else ""))
+      | .error e => (w, "err " ++ e.name)
+    | _, _ => (w, "bad-op")
   | ["burst", c, n] =>
     match c.toNat?, n.toNat? with
     | some c', some n' => match burst w c' n' none none with
